@@ -366,6 +366,19 @@ func (r *Run) DoCmd(c Cmd) *Proc {
 	reply, ok := r.checkProcess(c, p)
 	r.Shapes[shape+"|"+preClass+"|"+fmt.Sprint(ok)] = true
 
+	// a read through any start directory and --dir spelling shows what the
+	// plain spelling from the project root shows, byte for byte (C18; for
+	// results this is also C20's "file_url of its absolute path")
+	if ok && c.IsRead() && !c.Human && (c.Op == "show" || c.Op == "list") && (c.Sub != "" || c.DirMode != "") {
+		cc := c
+		cc.Sub, cc.DirMode = "", ""
+		so, _, code := r.W.RunPlain(r.spec(cc).Argv, nil, r.cwdFor(cc))
+		r.W.Count.Inc("c18.canonical_reads")
+		if code != 0 || !bytes.Equal(so, p.Stdout) {
+			r.viol("C18", "spelling-changes-output", c.Op+"|"+c.DirMode, "%s from %q with --dir spelled %q answers %s; from the project root without --dir the answer is %s", shape, c.Sub, r.dirArg(c), oneLine(string(p.Stdout), 600), oneLine(string(so), 600))
+		}
+	}
+
 	// read purity (C12c): documented read-only commands never mutate the store
 	if c.IsRead() {
 		for _, e := range p.VisibleEvents() {
